@@ -409,6 +409,47 @@ fn intersect_pair(a: usize, b: usize, program: &mut Program) -> usize {
             let tuple_id = program.register_tuple(i1.name.clone(), fields);
             program.register_type(Type::Tuple(tuple_id))
         }
+        // Two partial types: the tuples that have the fields of both. Keeping the left operand (the
+        // fallback below) is sound for narrowing, but this function also RESOLVES a written
+        // intersection (`'readable & 'writable`), where dropping the right operand's fields gives
+        // a type that accepts tuples without them and does not know them in the body.
+        (
+            Type::Partial {
+                name: name1,
+                fields: fields1,
+            },
+            Type::Partial {
+                name: name2,
+                fields: fields2,
+            },
+        ) => {
+            if name1.is_some() && name2.is_some() && name1 != name2 {
+                return never;
+            }
+            let mut fields = Vec::with_capacity(fields1.len() + fields2.len());
+            for (label, f1) in fields1 {
+                let field = match fields2.iter().find(|(other, _)| other == label) {
+                    Some((_, f2)) => {
+                        let both = intersect_types(*f1, *f2, program);
+                        if both == program.never() {
+                            return never;
+                        }
+                        both
+                    }
+                    None => *f1,
+                };
+                fields.push((label.clone(), field));
+            }
+            for (label, f2) in fields2 {
+                if !fields1.iter().any(|(other, _)| other == label) {
+                    fields.push((label.clone(), *f2));
+                }
+            }
+            program.register_type(Type::Partial {
+                name: name1.clone().or_else(|| name2.clone()),
+                fields,
+            })
+        }
         _ => {
             if types_overlap(a, b, program) {
                 a
